@@ -321,10 +321,16 @@ class ExprOps:
             is_and = isinstance(node.op, ast.And)
             acc = TRUE if is_and else FALSE
             refs = []
+            undo = []          # names narrowed only for the evaluation of the later operands: restored before returning
+
+            def restore():
+                for nm, prev in reversed(undo):
+                    st.env[nm] = prev
             for i, v in enumerate(node.values):
                 c, rt, rf = self.cond(v)
                 if is_and:
                     if c == FALSE:
+                        restore()
                         return FALSE, [], []
                     rest = node.values[i + 1:]
                     if c != TRUE and rest and not self.spec_mode and not all(simple_expr(x) for x in rest):
@@ -332,11 +338,15 @@ class ExprOps:
                         d = st.decide(2, 'and@%d' % node.lineno)
                         if d == 1:
                             st.assume(mk_not(mk_and(acc, c)))
+                            restore()
                             return FALSE, [], []
                         st.assume(c)
                         self.apply_refine(rt)
                         c = TRUE
                     else:
+                        for nm, sv in rt:
+                            if nm in st.env:
+                                undo.append((nm, st.env[nm]))
                         self.apply_refine_tmp(rt)
                     refs += rt
                     acc = mk_and(acc, c)
@@ -354,6 +364,7 @@ class ExprOps:
                         c = FALSE
                     refs += rf
                     acc = mk_or(acc, c)
+            restore()
             if is_and:
                 return acc, refs, []
             return acc, [], refs
